@@ -1224,7 +1224,7 @@ theorem compile_correct_on_F2c : CompileCorrectOn (fun p => FyList p = true) := 
     | cont l rs' => rw [hres] at h; exact h.elim
 
 macro "fy_mem" d:ident : tactic =>
-  `(tactic| simp [$d:ident, FyList, Fy, FzList, Fz, FzArms, FxList, Fx, FxArms, lblOk, FtList, FfList, Ff, FaList, FfArms, FfBinds,
+  `(tactic| simp [$d:ident, FyList, Fy, FzList, Fz, Fs, FzArms, FxList, Fx, FxArms, lblOk, FtList, FfList, Ff, FaList, FfArms, FfBinds,
       okRest, okParam, okName, okBinder, okSym, okHead, foBuiltins, hoNames])
 
 /-- `(defn loop [i acc] (cond (== i 0) acc (loop (- i 1) (+ acc i)))) (trace (loop 3 0))`: a loop by a self tail
@@ -1548,6 +1548,53 @@ example : ∃ fuel' val t, t.length = 0 ∧ obsOfRef (Ref.runProgram 20 demoAppl
     ∧ obsOfVM (VM.runText fuel' demoApplyBuiltin VM.initSt).1 = some (.ok val t) :=
   lazy_instance 20 demoApplyBuiltin (Or.inl demoApplyBuiltin_in) (by decide) _ _ demoApplyBuiltin_ref
 
+/-! ## Self tail calls and loops with exits in NESTED functions -/
+
+/-- `(defn outer [n] (defn lp [i acc] (cond (== i 0) acc (lp (- i 1) (+ acc i)))) (lp n 0)) (outer 3)`: the nested
+function loops by a self tail call -/
+def demoNestedTail : List Expr :=
+  [.defn "outer" ["n"] none
+     [.defn "lp" ["i", "acc"] none [.cond [(.call (.sym "==") [.sym "i", .int 0], .sym "acc")]
+        (.call (.sym "lp") [.call (.sym "-") [.sym "i", .int 1], .call (.sym "+") [.sym "acc", .sym "i"]])],
+      .call (.sym "lp") [.sym "n", .int 0]],
+   .call (.sym "outer") [.int 3]]
+
+/-- `(defn outer [xs] (defn firstpos [ys] (def r 0) (for [(def i 0) (< i (len ys)) (set i (+ i 1))]
+(cond (> (aget ys i) 0) (begin (set r (aget ys i)) (break)) nil)) r) (firstpos xs)) (outer [0 5 7])`: a loop with
+`break` in the body of a nested function -/
+def demoNestedBrk : List Expr :=
+  [.defn "outer" ["xs"] none
+     [.defn "firstpos" ["ys"] none
+        [.def_ "r" (.int 0),
+         .for_ none (.def_ "i" (.int 0)) (.call (.sym "<") [.sym "i", .call (.sym "len") [.sym "ys"]])
+           (.set_ "i" (.call (.sym "+") [.sym "i", .int 1]))
+           [.cond [(.call (.sym ">") [.call (.sym "aget") [.sym "ys", .sym "i"], .int 0],
+                    .begin_ [.set_ "r" (.call (.sym "aget") [.sym "ys", .sym "i"]), .break_ none])] .nilLit],
+         .sym "r"],
+      .call (.sym "firstpos") [.sym "xs"]],
+   .call (.sym "outer") [.arr [.int 0, .int 5, .int 7]]]
+
+theorem demoNestedTail_in : FyList demoNestedTail = true := by fy_mem demoNestedTail
+example : FyList demoNestedBrk = true := by fy_mem demoNestedBrk
+example : FtList demoNestedTail = false := by fy_mem demoNestedTail
+
+set_option maxRecDepth 16000 in
+theorem demoNestedTail_ref :
+    refVT (Ref.evalBegin 40 demoNestedTail 0 { Ref.initSt with trace := [] }) = some (.int 6#64, 0) := by
+  ref_eval2 demoNestedTail
+
+/-- **Nested functions with self tail calls and loops with exits**: in the bodies of F2c (`Sim.FzList`) a statement
+before the last one (`Sim.Fs`) or the form in tail position (`Sim.Fz`) may be a `defn` whose body is again in
+`Sim.FzList` — to any depth. Such a `defn` makes a closure object whose body is simulated in tail position like
+every other (`Sim.simF_defnZ`, `Sim.GoodFn.clo`); the generator's knowledge of the function it compiles
+(`Sim.KnownOk`, `knownOk_bodyCtx`) and the loop-table facts travel with the object. `compile_correct_on_F2c` — and
+with it `compile_correct_on_F3` — covers these programs; this is the instance for the fragment as it is now. -/
+theorem compile_correct_on_F2c_nested : CompileCorrectOn (fun p => FyList p = true) := compile_correct_on_F2c
+
+example : ∃ fuel' val t, t.length = 0 ∧ obsOfRef (Ref.runProgram 40 demoNestedTail Ref.initSt).1 = some (.ok val t)
+    ∧ obsOfVM (VM.runText fuel' demoNestedTail VM.initSt).1 = some (.ok val t) :=
+  lazy_instance 40 demoNestedTail (Or.inr demoNestedTail_in) (by decide) _ _ demoNestedTail_ref
+
 /-- **C16's `LazySemantics` on the fragment**: the statement of `Props/C16.lean` (`C16.LazySemantics`, in that
 file's vocabulary) restricted to the programs of F3-lazy. -/
 theorem lazy_semantics_on_F3lazy (p : List Expr) (hp : FtList p = true ∨ FyList p = true) (hwf : Ref.wfList {} p = true)
@@ -1592,8 +1639,9 @@ def InProvedFragment (p : List Expr) : Prop :=
 (F2 and F2c include lazy parameters, `force`, `apply` and `map`) —
 i.e. using a `fn`/`defn` inside
 an operand of a call (compiled at run time), a self call in
-a directly compiled non-tail position or in a nested `defn`, `substitute`, computed call heads,
-`break`/`continue` inside the body of a nested function, an empty `newScope`, or (together with calls or
+a directly compiled non-tail position, a self tail call or `break`/`continue` in a nested function that is not a
+`defn` statement of a function body (an anonymous `fn`, a `defn` inside a loop body or an operand), `substitute`,
+computed call heads, an empty `newScope`, or (together with calls or
 array literals) a binder that re-uses a builtin name. Held by the 3-way `eval` correspondence on
 every run, not by a theorem. -/
 def CompileCorrectOutsideProved : Prop := CompileCorrectOn (fun p => ¬ InProvedFragment p)
@@ -1626,15 +1674,17 @@ def CompileCorrectOutsideProved : Prop := CompileCorrectOn (fun p => ¬ InProved
      (`Sim.force_sim`) — `compile_correct_on_F3lazy`, and in C16's vocabulary `lazy_semantics_on_F3lazy`;
    * F3 — in the same fragments, `apply` and `map` on closure objects and on Go builtins (first-order, `force`,
      `apply`, `map`), over arrays and lists; builtins as values — `compile_correct_on_F3`;
+   * nested functions — a `defn` that is a statement (or the last form) of a function body of F2c may itself have a
+     body of F2c: self tail calls and loops with `break`/`continue` in nested functions, to any depth
+     (`Sim.Fs`, `Sim.simF_defnZ`) — `compile_correct_on_F2c_nested`;
    * for the effect-free sub-fragment F0c with explicit fuel on both sides — `compile_correct_F0c`;
 2. the full `CompileCorrect` follows from its restriction to the remaining programs
    (`CompileCorrectOutsideProved`, the precise unproved remainder);
 3. the layout half for `begin`/`cond`/`and`/`or` as before (and `gen_for_layout` for loops).
 
 MISSING (held by the `eval` correspondence only): `CompileCorrectOutsideProved` — `break`/`continue`
-inside the bodies of nested functions (`fn`, `defn` not at top level), the rest of F2
-(`fn`/`defn` inside operands), self tail calls and `break`/`continue` in nested functions,
-`substitute`. -/
+and self tail calls inside anonymous functions (`fn`) and inside `defn`s that are not statements of a function body
+(in loop bodies, in operands), the rest of F2 (`fn`/`defn` inside operands), `substitute`. -/
 theorem compile_correct_partial :
     CompileCorrectOn InProvedFragment
     ∧ (CompileCorrectOutsideProved → CompileCorrect)
